@@ -215,7 +215,7 @@ func CheckC03(k *sim.Kernel, ar *AdmRun) {
 		}
 	}
 	for i, a := range ar.Actors {
-		if a.Pub == nil || a.Attempt == nil {
+		if (a.Pub == nil && a.Rtsp == nil) || a.Attempt == nil {
 			continue
 		}
 		e, notified := startByRemote[a.Attempt.Remote]
@@ -265,11 +265,29 @@ func CheckC03(k *sim.Kernel, ar *AdmRun) {
 		}
 		return sev[i].ord < sev[j].ord
 	})
+	// a stop notification is emitted after the input has been detached (DelXxxSession), outside the group lock, so
+	// the next input's start notification may overtake it: that is only an overlap if the holder's release had not
+	// even been invoked (peer close / kick / stop / origin close) when the next input was accepted
+	relCallOf := map[string]int{}
+	for _, at := range ar.Attempts {
+		if at.SessionId != "" {
+			relCallOf[at.SessionId] = at.RelCall
+		}
+	}
+	for _, o := range ar.Origins {
+		if o.Attempt != nil && o.Attempt.SessionId != "" {
+			relCallOf[o.Attempt.SessionId] = o.Attempt.RelCall
+		}
+	}
 	cur := map[int]string{}
 	for _, e := range sev {
 		if e.start {
 			if c := cur[e.strm]; c != "" {
-				k.Violate("C03.two-inputs", "stream st%d: %s was accepted while input %s was still accepted", e.strm, e.desc, c)
+				if rc, ok := relCallOf[c]; ok && rc >= 0 && rc <= e.step {
+					k.Probe("c03_stop_notification_overtaken_by_next_start")
+				} else {
+					k.Violate("C03.two-inputs", "stream st%d: %s was accepted while input %s was still accepted", e.strm, e.desc, c)
+				}
 			}
 			cur[e.strm] = e.key
 		} else if cur[e.strm] == e.key {
